@@ -73,8 +73,12 @@ class CounterInterval:
 
     def __init__(self, cfg: CFG, is_counter: Callable[[ast.AST], bool],
                  is_limit: Callable[[ast.AST], bool], entry: Interval,
-                 limit_min: int = 1):
+                 limit_min: int = 1,
+                 fresh_value: Callable[[ast.AST], int | None] | None = None):
         self.cfg = cfg
+        # fresh_value(stmt): the counter's value after a statement that binds
+        # the record to a newly constructed one (None: not such a statement)
+        self.fresh_value = fresh_value
         self.is_counter = is_counter
         self.is_limit = is_limit
         self.limit_min = limit_min
@@ -188,6 +192,10 @@ class CounterInterval:
             if isinstance(a, (ast.Assign, ast.AnnAssign)):
                 tgts = a.targets if isinstance(a, ast.Assign) else [a.target]
                 val = a.value
+                if self.fresh_value is not None:
+                    fv = self.fresh_value(a)
+                    if fv is not None:
+                        return (None, fv - self.limit_min)
                 if any(self.is_counter(t) for t in tgts):
                     if isinstance(val, ast.Constant) and isinstance(
                             val.value, int):
